@@ -149,8 +149,9 @@ func simPause(cs *compState) {
 			}
 		})
 	}
+	nWork := 20 + cs.Draw(60) // a finite supply: once it is used up a call that never returns shows as "nothing can run any more"
 	cs.Go("feeder", func() {
-		for n := 0; ; n++ {
+		for n := 0; n < nWork; n++ {
 			select {
 			case work <- n:
 			case <-ctx.Done():
